@@ -6,13 +6,14 @@ spec/SplitIntoBins.tla      fill / compute / IterateBins machine with per-cell s
                             OutsideIgnored, ComputeZip, IterOnceEach, MapShape
 spec/Trace_SplitIntoBins.tla   validation of recorded runs with real-valued edges (rank-abstracted)
 """
+import concurrent.futures
 import copy
 import random
 
 from .. import core
 from .. import binslib as bl
 
-ACTIONS = ("FillInside", "FillUnderflow", "FillOverflow", "StartCompute", "ComputeNext", "ComputeStop",
+ACTIONS = ("FillInside", "FillUnderflow", "FillOverflow", "StartCompute", "ComputeNext", "WriteCtx", "ComputeStop",
            "IterNext", "Mutate", "IterEnd")
 
 
@@ -23,27 +24,84 @@ def lists(x):
     return x
 
 
-def build(rec, variant):
-    import lena.structures as ls
-    dim = len(rec["edges"])
-    edges = bl.py_edges(rec["edges"], False)
-    av = bl.arg_var(1) if dim == 1 else bl.arg_var2(variant % 2)
-    sib = ls.SplitIntoBins(bl.make_seq(rec["kind"], bare=bool(variant % 2)), av, copy.deepcopy(edges))
-    return sib, av, edges, dim
+def template_of(seq):
+    """The accumulator object(s) handed to the constructor (to see that they are only a template)."""
+    if isinstance(seq, bl.Collect):
+        return [seq]
+    return [el for el in getattr(seq, "_seq", []) if isinstance(getattr(el, "_el", el), bl.Collect) or isinstance(el, bl.Collect)]
+
+
+def consume(gen):
+    """The consumer of the specification: takes one histogram, keeps a snapshot of its context as it
+    arrived, writes into the context (and into context.variable), then asks for the next one."""
+    got = []
+    for k, res in enumerate(gen, 1):
+        if isinstance(res, tuple) and len(res) == 2 and isinstance(res[1], dict):
+            snap = copy.deepcopy(res[1])
+            res[1]["touched"] = k
+            if isinstance(res[1].get("variable"), dict):
+                res[1]["variable"]["touched"] = k
+            got.append((res[0], snap, res[1]))
+        else:
+            got.append((res, None, None))
+    return got
 
 
 def run_sib(rec, variant):
-    """The real SplitIntoBins on the scenario; variant 2/3 drives it through Sequence.run."""
+    """The real SplitIntoBins on the scenario, used again as the specification does: compute() after
+    rec["cut"] values, once more at once, the rest of the flow, compute().  Variant 2/3 (only when
+    compute() is due after the whole flow) drives it through Sequence.run instead."""
     import lena.core
-    sib, av, edges, dim = build(rec, variant)
-    values = bl.make_values(rec["flow"], dim, False)
-    if variant >= 2:
-        out = list(lena.core.Sequence(sib).run(iter(values)))
+    import lena.structures as ls
+    dim = len(rec["edges"])
+    edges = bl.py_edges(rec["edges"], False)
+    given_edges = copy.deepcopy(edges)
+    av = bl.arg_var(1) if dim == 1 else bl.arg_var2(variant % 2)
+    var_before = copy.deepcopy(av.var_context)
+    els = bl.elements(rec["kind"])
+    bare = bool(variant % 2) and len(els) == 1
+    seq = els[0] if bare else lena.core.FillComputeSeq(*els)
+    template = [el for el in els if isinstance(el, bl.Collect)]
+    sib = ls.SplitIntoBins(seq, av, given_edges)
+    values = bl.make_values(rec["flow"], dim, False, pairs=bl.duck_pair if variant % 4 == 1 else None)
+    cut = rec["cut"]
+    problems = []
+    if variant >= 2 and cut == len(values):
+        computes = [consume(lena.core.Sequence(sib).run(iter(values)))]
+        expected = [rec["computes"][-1]]
     else:
-        for v in values:
+        computes, expected = [], rec["computes"]
+        for v in values[:cut]:
             sib.fill(v)
-        out = list(sib.compute())
-    return out, av, edges, dim, values
+        computes.append(consume(sib.compute()))
+        computes.append(consume(sib.compute()))
+        if cut < len(values):
+            for v in values[cut:]:
+                sib.fill(v)
+            computes.append(consume(sib.compute()))
+    if any(t.ids for t in template):
+        problems.append("the analysis object given to the constructor is filled itself")
+    if lists(given_edges) != lists(edges):
+        problems.append("SplitIntoBins changes the edges it was given")
+    if av.var_context != var_before:
+        problems.append("a consumer's write into a yielded context reaches the argument variable's var_context")
+    # no two yielded contexts share a mutable object; none shares one with a flow value
+    from ..util import reach_ids
+    owners = [("flow value %d" % (i + 1), set(reach_ids(v[1]))) for i, v in enumerate(values)
+              if isinstance(v, tuple) and len(v) == 2 and isinstance(v[1], dict)]
+    owners.append(("the argument variable", set(reach_ids(av.var_context))))
+    for c, comp in enumerate(computes):
+        for k, (hist, snap, live) in enumerate(comp):
+            if live is None:
+                continue
+            mine = set(reach_ids(live))
+            for name, other in owners:
+                if mine & other:
+                    problems.append("the context of a yielded histogram shares a mutable object with %s"
+                                    % ("another yielded context" if name.startswith("histogram") else name.rstrip(" 0123456789")))
+                    break
+            owners.append(("histogram %d.%d" % (c, k), mine))
+    return computes, expected, av, edges, dim, values, problems
 
 
 def ctx_dict(c):
@@ -56,31 +114,38 @@ def ctx_dict(c):
     return d
 
 
-def check_contexts(rec, out, av, values, worst, size, where):
-    """The histograms carry the last inside value's context as it arrived + variable of the argument
-    variable; the flow values' own contexts hold nothing SplitIntoBins wrote."""
+def check_contexts(rec, exp, comp, av, worst, size, where):
+    """Every histogram arrives with the last inside value's context as it arrived + variable of the
+    argument variable - nothing an inner element or the consumer of an earlier histogram wrote."""
     base = {"scenario": bl.scen_text(rec), "where": where}
     ok = True
-    want = dict(ctx_dict(rec["hctx"]), variable=av.var_context)
-    for k, (hist, context) in enumerate(out):
-        if context != want:
+    want = dict(ctx_dict(exp["hctx"]), variable=av.var_context)
+    for k, (hist, snap, live) in enumerate(comp):
+        if snap != want:
             ok = False
             kind = ("context.variable does not describe the argument variable"
-                    if context.get("variable") != av.var_context else
+                    if (snap or {}).get("variable") != av.var_context else
                     "histogram context is not the last filled value's context + variable")
-            worst.add(kind, size, dict(base, histogram=k, expected=repr(want), observed=repr(context)))
-    for i, (v, c) in enumerate(zip(values, rec["vctx"])):
-        got = v[1] if (isinstance(v, tuple) and len(v) == 2 and isinstance(v[1], dict)) else {}
-        if got != ctx_dict(c):
-            ok = False
-            worst.add("SplitIntoBins changes the context of a flow value", size,
-                      dict(base, position=i + 1, expected=repr(ctx_dict(c)), observed=repr(got)))
+            worst.add(kind, size, dict(base, histogram=k, values_filled=exp["n"], expected=repr(want), observed=repr(snap)))
     return ok
 
 
-def check_hists(rec, out, av, edges, dim, worst, size, where):
+def check_flow_contexts(rec, values, worst, size, where):
+    """The flow values' own contexts hold nothing SplitIntoBins wrote."""
+    base = {"scenario": bl.scen_text(rec), "where": where}
+    ok = True
+    for i, (v, c) in enumerate(zip(values, rec["vctx"])):
+        if not (isinstance(v, tuple) and len(v) == 2 and isinstance(v[1], dict)):
+            continue
+        if dict(v[1]) != ctx_dict(c):
+            ok = False
+            worst.add("SplitIntoBins changes the context of a flow value", size,
+                      dict(base, position=i + 1, expected=repr(ctx_dict(c)), observed=repr(dict(v[1]))))
+    return ok
+
+
+def check_hists(rec, exp, out, av, edges, dim, worst, size, where):
     import lena.structures as ls
-    exp = rec["hists"]
     base = {"scenario": bl.scen_text(rec), "where": where}
     if len(out) != len(exp):
         worst.add("number of histograms", size, dict(base, expected=len(exp), observed=len(out)))
@@ -222,21 +287,29 @@ def check_maps(rec, out, edges, dim, worst, size):
 
 
 def replay(ctx, rec, n, worst):
-    size = (len(rec["flow"]), len(core.canon(rec["edges"])), core.canon([rec["edges"], rec["flow"], rec["kind"]]))
-    for variant in ((n % 2, 2 + n % 2) if n % 5 == 0 else (n % 2,)):
+    size = (len(rec["flow"]), len(core.canon(rec["edges"])), core.canon([rec["edges"], rec["flow"], rec["kind"], rec["cut"]]))
+    for variant in ((n % 2, 2 + n % 2) if n % 5 == 0 else (n % 4,) if n % 4 < 2 else (n % 2,)):
+        where = "run" if variant >= 2 else "fill/compute"
         try:
-            out, av, edges, dim, values = run_sib(rec, variant)
+            computes, expected, av, edges, dim, values, problems = run_sib(rec, variant)
         except Exception as exc:   # noqa
-            worst.add("raised %s" % type(exc).__name__, size, {"scenario": bl.scen_text(rec), "exception": repr(exc),
-                                                              "where": "run" if variant >= 2 else "fill/compute"})
+            worst.add("raised %s" % type(exc).__name__, size, {"scenario": bl.scen_text(rec), "exception": repr(exc), "where": where})
             continue
-        ok = check_hists(rec, out, av, edges, dim, worst, size, "run" if variant >= 2 else "fill/compute")
-        ok = check_contexts(rec, out, av, values, worst, size, "run" if variant >= 2 else "fill/compute") and ok
+        for p in problems:
+            worst.add(p, size, {"scenario": bl.scen_text(rec), "where": where})
+        ok = True
+        for c, (comp, exp) in enumerate(zip(computes, expected)):
+            w = "%s, compute() number %d after %d values" % (where, c + 1, exp["n"])
+            out = [(h, snap) for h, snap, _ in comp]
+            ok = check_hists(rec, exp["hists"], out, av, edges, dim, worst, size, w) and ok
+            ok = check_contexts(rec, exp, comp, av, worst, size, w) and ok
+        ok = check_flow_contexts(rec, values, worst, size, where) and ok
+        out = [(h, snap) for h, snap, _ in computes[-1]]
         if ok and variant < 2:
             check_iter(rec, out, edges, dim, worst, size, variant)
             if n % 3 == 0 or len(rec["flow"]) <= 1:
                 check_maps(rec, out, edges, dim, worst, size)
-    ctx.case(["sib", rec["edges"], rec["flow"], rec["kind"]], nontrivial=len(rec["flow"]) > 0)
+    ctx.case(["sib", rec["edges"], rec["flow"], rec["kind"], rec["cut"]], nontrivial=len(rec["flow"]) > 0)
 
 
 # ------------------------------------------------------------------ second oracle: real analyses
@@ -298,10 +371,17 @@ def second_oracle(ctx, rec, worst):
             for v in values:
                 sib.fill(v)
             out = list(sib.compute())
+            again = list(sib.compute())          # the same object asked again
             got_exc = None
         except Exception as exc:   # noqa
-            out, got_exc = [], type(exc).__name__
+            out, again, got_exc = [], [], type(exc).__name__
         ctx.case(["sib-real", rec["edges"], rec["flow"], name], nontrivial=len(rec["flow"]) > 0)
+        if not got_exc and [c for _, c in again] != [c for _, c in out]:
+            kind = ("context.variable does not describe the argument variable"
+                    if any(c.get("variable") != av.var_context for _, c in again) else
+                    "histogram context is not the last filled value's context + variable")
+            worst.add(kind, size, dict(base, where="compute() called a second time", expected=repr([c for _, c in out][:1]),
+                                       observed=repr([c for _, c in again][:1])))
         if exp_exc or got_exc:
             # a private copy that cannot compute (Mean of nothing): SplitIntoBins cannot either
             if exp_exc != got_exc:
@@ -327,7 +407,8 @@ def second_oracle(ctx, rec, worst):
         for i, v in enumerate(values):
             if isinstance(v, tuple) and len(v) == 2 and isinstance(v[1], dict):
                 vc = v[1]
-                if vc.get("src") != i + 1 or (vc.get("variable") is not None and vc["variable"].get("name") in ("x", "xy")):
+                want_src = (i + 1) if rec["flow"][i]["h"] else None
+                if vc.get("src") != want_src or (vc.get("variable") is not None and vc["variable"].get("name") in ("x", "xy")):
                     worst.add("SplitIntoBins changes the context of a flow value", size,
                               dict(base, position=i + 1, observed=repr(vc)))
         for k, (hist, context) in enumerate(out):
@@ -379,14 +460,15 @@ def record_runs(ctx, rnd, n, worst):
             coords.append(c)
         kind = rnd.choice(bl.KINDS)
         hs = [rnd.random() < 0.7 for _ in coords]
+        ps = [h or rnd.random() < 0.4 for h in hs]          # some values are (data, {}) pairs
         redges, rcoords = bl.rank_abstract(edges, coords)
-        rec = {"edges": redges, "kind": kind, "flow": [{"x": c, "h": h} for c, h in zip(rcoords, hs)]}
+        rec = {"edges": redges, "kind": kind, "flow": [{"x": c, "h": h, "p": p} for c, h, p in zip(rcoords, hs, ps)]}
         real_edges = edges[0] if dim == 1 else edges
         av = bl.arg_var(1) if dim == 1 else bl.arg_var2(0)
         values = []
-        for i, (c, h) in enumerate(zip(coords, hs)):
+        for i, (c, h, p) in enumerate(zip(coords, hs, ps)):
             data = (i + 1, c[0] if dim == 1 else tuple(c))
-            values.append((data, {"src": i + 1}) if h else data)
+            values.append((data, {"src": i + 1}) if h else ((data, {}) if p else data))
         try:
             sib = ls.SplitIntoBins(bl.make_seq(kind), av, copy.deepcopy(real_edges))
             for v in values:
@@ -395,8 +477,8 @@ def record_runs(ctx, rnd, n, worst):
             rec["hists"] = [bl.md_map(bl.enc_result, h.bins, dim) for h, _ in out]
             hc = out[0][1] if out else {}
             rec["hctx"] = {"src": hc.get("src", 0), "mut": hc.get("mut", 0)}
-            rec["vctx"] = [{"src": v[1].get("src", 0), "mut": v[1].get("mut", 0)} if h else {"src": 0, "mut": 0}
-                           for v, h in zip(values, hs)]
+            rec["vctx"] = [{"src": v[1].get("src", 0), "mut": v[1].get("mut", 0)} if p else {"src": 0, "mut": 0}
+                           for v, p in zip(values, ps)]
             if out and hc.get("variable") != av.var_context:
                 raise ValueError("context.variable %r" % (hc.get("variable"),))
             rec["iter"] = []
@@ -422,6 +504,23 @@ def report(ctx, worst):
         ctx.violation("SplitIntoBins:%s:%s" % (kind, d["scenario"]), dict(d, cases_of_this_kind=worst.count[kind]))
 
 
+def corrupt(r):
+    for k, h in enumerate(r["hists"]):
+        flat = h if len(r["edges"]) == 1 else [c for row in h for c in row]
+        if len(flat) >= 2 and flat[0]["ids"]:
+            r2 = copy.deepcopy(r)
+            f2 = r2["hists"][k] if len(r["edges"]) == 1 else [c for row in r2["hists"][k] for c in row]
+            f2[1]["ids"] = f2[1]["ids"] + [f2[0]["ids"].pop()]        # a value moves to the next cell
+            return r2
+    return None
+
+
+def make_demo(recs):
+    """Records for the binding demonstration, taken from behaviours of the specification itself."""
+    return [{"edges": r["edges"], "kind": r["kind"], "flow": r["flow"], "hists": r["hists"],
+             "iter": [c["e"] for c in r["iter"]], "hctx": r["hctx"], "vctx": r["vctx"]} for r in recs[-80:]]
+
+
 def run(ctx):
     tag = "thorough" if ctx.thorough else "quick"
     rnd = random.Random(ctx.seed)
@@ -430,8 +529,12 @@ def run(ctx):
                "pairs; edges and coordinates enter the specification as ranks (only comparisons are used)")
     ctx.assume("2-dimensional argument variables are a Combine of two variables, or one Variable returning a pair "
                "with the caller supplying create_edges_str to IterateBins (one name cannot label two coordinates)")
-    ctx.mc("SplitIntoBins", "SplitIntoBins_%s.cfg" % tag, coverage=True, must_cover=ACTIONS)
-    recs = ctx.export("SplitIntoBins", "SplitIntoBins_%s_export.cfg" % tag, min_records=1000)
+    # the model-checking run and the export run are independent: side by side
+    with concurrent.futures.ThreadPoolExecutor(max_workers=2) as pool:
+        f_mc = pool.submit(ctx.mc, "SplitIntoBins", "SplitIntoBins_%s.cfg" % tag, coverage=True, must_cover=ACTIONS)
+        f_ex = pool.submit(ctx.export, "SplitIntoBins", "SplitIntoBins_%s_export.cfg" % tag, min_records=1000)
+        recs = f_ex.result()
+        f_mc.result()
     worst = bl.Worst()
     seen = set()
     for n, rec in enumerate(recs):
@@ -444,6 +547,8 @@ def run(ctx):
     ctx.sample({"spec_behaviour": recs[-1]})
     trace = record_runs(ctx, rnd, 6000 if ctx.thorough else 1200, worst)
     clean = [{k: v for k, v in r.items() if k != "real"} for r in trace]
+    demo_pool = concurrent.futures.ThreadPoolExecutor(max_workers=1)
+    f_demo = demo_pool.submit(ctx.binding_demo, "Trace_SplitIntoBins", "Trace_SplitIntoBins.cfg", make_demo(recs), corrupt, 80)
     acc = ctx.validate("Trace_SplitIntoBins", "Trace_SplitIntoBins.cfg", clean)
     ctx.traces += acc
     ctx.evaluations += len(clean)
@@ -457,18 +562,8 @@ def run(ctx):
     ctx.sample({"recorded_trace_record": trace[min(1, len(trace) - 1)]})
     report(ctx, worst)
 
-    def corrupt(r):
-        for k, h in enumerate(r["hists"]):
-            flat = h if len(r["edges"]) == 1 else [c for row in h for c in row]
-            if len(flat) >= 2 and flat[0]["ids"]:
-                r2 = copy.deepcopy(r)
-                f2 = r2["hists"][k] if len(r["edges"]) == 1 else [c for row in r2["hists"][k] for c in row]
-                f2[1]["ids"] = f2[1]["ids"] + [f2[0]["ids"].pop()]        # a value moves to the next cell
-                return r2
-        return None
-    demo = [{"edges": r["edges"], "kind": r["kind"], "flow": r["flow"], "hists": r["hists"],
-             "iter": [c["e"] for c in r["iter"]], "hctx": r["hctx"], "vctx": r["vctx"]} for r in recs[-80:]]
-    ctx.binding_demo("Trace_SplitIntoBins", "Trace_SplitIntoBins.cfg", demo, corrupt, limit=80)
+    f_demo.result()
+    demo_pool.shutdown()
     return ctx.finish(
         rule="S2C: every scenario of the bounded model (1-d edges with 1-3 cells, 2-d 2x2 / 2x1 / 1x3; flows with "
              "coordinates below, on every edge, inside every cell and above; eight inner analyses) on the real "
